@@ -4,6 +4,7 @@ import DyntplV.Esc.Json
 import DyntplV.Esc.Html
 import DyntplV.Esc.Js
 import DyntplV.DriverR
+import DyntplV.DriverC20
 import DyntplV.DriverC04
 import DyntplV.DriverC12
 /-!
@@ -79,6 +80,9 @@ def answer (line : String) : String :=
   | some a => a
   | none =>
   match DriverC04.answer toks with
+  | some a => a
+  | none =>
+  match DriverC20.answer toks with
   | some a => a
   | none =>
   match toks with
